@@ -106,15 +106,18 @@ class XmlContext:
         if len(sys.modules) == self.sys_modules:
             return
 
-        self.xsi_cache.clear()
+        # Build the index on the side and publish it with a single assignment,
+        # so that concurrent lookups never observe it cleared or half-built.
+        xsi_cache: dict[str, list[type]] = defaultdict(list)
         builder = self.get_builder()
         for clazz in self.get_subclasses(object):
             if self.is_binding_model(clazz):
                 meta = builder.build_class_meta(clazz)
 
                 if meta.target_qname:
-                    self.xsi_cache[meta.target_qname].append(clazz)
+                    xsi_cache[meta.target_qname].append(clazz)
 
+        self.xsi_cache = xsi_cache
         self.sys_modules = len(sys.modules)
 
     def is_binding_model(self, clazz: type[T]) -> bool:
